@@ -2,7 +2,7 @@
 import ast
 
 from sa.program import src, own_nodes, call_name, parent, kwarg, AnchorMissing
-from sa import guards, affine
+from sa import guards, affine, resolve
 from sa.affine import Lin
 
 EXPLANATION = (
@@ -366,7 +366,37 @@ def r05_6(ctx):
             ctx.undecided('R05.6', rf.qual, 'truncation applies to every construction of the one-level prolongator', zero[0], 'guarded by %s' % extra)
 
 
+def r05_7(ctx):
+    """prolongate_to(fine): a coarse function that is replaced in `fine` is represented by fine functions as many levels
+    down as `fine` was refined beyond `self` there -- a quantity no property of either mesh bounds (the level disparity limits
+    which levels meet WITHIN one space, not how far two nested spaces are apart).  The ranges of target levels must therefore
+    run to the finest level of `fine`; a bound that mentions the disparity drops the contributions to all deeper levels."""
+    f = ctx.prog.func('pyiga.hierarchical.HSpace.prolongate_to')
+    n = 0
+    for l in [x for x in ast.walk(f.node) if isinstance(x, ast.For) and isinstance(x.iter, ast.Call) and src(x.iter.func) == 'range']:
+        it = resolve.expand(l.iter, l)
+        names = {x.id for x in ast.walk(it) if isinstance(x, ast.Name)} | {x.attr for x in ast.walk(it) if isinstance(x, ast.Attribute)}
+        body = src(ast.Module(l.body, []))
+        # the loops that walk target levels of the fine space: they index per-level data of `fine` with the loop variable
+        tv = l.target.id if isinstance(l.target, ast.Name) else None
+        if tv is None or not any(w in body for w in ('f_actfun_rav[%s]' % tv, 'f_deactfun_rav[%s]' % tv, 'needed_P_rows[%s - 1]' % tv)):
+            continue
+        n += 1
+        if 'disparity' in names:
+            ctx.violated('R05.7', f.qual, 'for %s in %s' % (tv, src(l.iter)), l,
+                         'the target levels of the prolongation are cut at `disparity` levels below the coarse level: if `fine` is more than '
+                         '`disparity` levels deeper than `self` where a coarse function was replaced (two further corner refinements with '
+                         'disparity 1), the contributions to the deeper levels are dropped and P u is not the same function '
+                         '(max deviation 0.40 for p=2, 4x4 cells)')
+        elif names & {'f_numlevels', 'numlevels'}:
+            ctx.met('R05.7', f.qual, 'for %s in %s' % (tv, src(l.iter)), l, 'runs to the finest level of the fine space')
+        else:
+            ctx.undecided('R05.7', f.qual, 'for %s in %s' % (tv, src(l.iter)), l, 'upper bound not recognised')
+    ctx.floor('R05.7', 'loops over target levels in prolongate_to', n, 2)
+
+
 def run(ctx):
+    r05_7(ctx)
     r05_6(ctx)
     r05_1(ctx)
     r05_2(ctx)
